@@ -9,6 +9,7 @@ import (
 	nd "github.com/ipld/go-ipld-prime/internal/verifnd"
 	"github.com/ipld/go-ipld-prime/schema"
 	"github.com/ipld/go-ipld-prime/zzverif/ref/gen"
+	"github.com/ipld/go-ipld-prime/zzverif/ref/nodecheck"
 	"github.com/ipld/go-ipld-prime/zzverif/ref/refschema"
 	"github.com/ipld/go-ipld-prime/zzverif/ref/refval"
 	"github.com/ipld/go-ipld-prime/zzverif/schemas"
@@ -86,6 +87,52 @@ func views(engine int, name string) {
 	nd.NoPanic("re-encode", func() { err = dagcbor.Encode(n3.(schema.TypedNode).Representation(), &buf2) })
 	nd.Assert(err == nil && nd.EqBytes(buf.Bytes(), buf2.Bytes()), "re-encoding reproduces the same bytes")
 	nd.Reach("end")
+}
+
+// readAPI: the whole read API on both views of a built value: length, both iterators and every
+// lookup form agree, kind-inappropriate accessors are wrong-kind errors, nothing panics.
+func readAPI(engine int, name string) {
+	t := schemas.ByName(name)
+	g := &refschema.G{NarrowInts: true}
+	v := g.Gen(t)
+	want := refschema.Repr(t, v)
+	proto := typed.Proto(engine, name)
+	nb := proto.Type.NewBuilder()
+	if typed.Assign(nb, v) != nil {
+		return // acceptance is the subject of HBind / HGen
+	}
+	n := nb.Build()
+	rn := n.(schema.TypedNode).Representation()
+	probe := nd.String("probe", 1)
+	if len(t.Fields) > 0 && nd.Choose("probefield", 2) == 1 {
+		probe = t.Fields[nd.Choose("whichfield", len(t.Fields))].Name
+	}
+	o := nodecheck.Opts{Probe: probe, ProbeIx: nd.Int64("probeix"), Deep: true, Typed: true}
+	nd.NoPanic("read API (type level)", func() { nodecheck.Check(n, v, o) })
+	o.Label = "repr: "
+	nd.NoPanic("read API (representation)", func() { nodecheck.Check(rn, want, o) })
+	nd.Reach("end")
+}
+
+// HReadBind / HReadGen: the read API of typed nodes and their representations.
+func HReadBind() {
+	readAPI(nd.Choose("inferred", 2), pick(bindTypes))
+}
+func HReadGen() {
+	readAPI(typed.Generated, pick(genTypes))
+}
+
+// pick: one type of the list; with BIG=0 the four largest compositions (whose parts are in the
+// list on their own) are left to the thorough tier.
+func pick(all []string) string {
+	var l []string
+	for _, n := range all {
+		if nd.Param("BIG", 1) == 0 && (n == "Outer" || n == "Nested" || n == "ListOO" || n == "MapOO") {
+			continue
+		}
+		l = append(l, n)
+	}
+	return l[nd.Choose("type", len(l))]
 }
 
 // HBind: bindnode with user-supplied Go types, and with inferred Go types.
